@@ -51,6 +51,8 @@ type Shared struct {
 	restartCount int
 	restartTimer atomic.Pointer[time.Timer]
 	openLock     sync.Mutex // 串行化解析器中的建连
+	liveLock     sync.Mutex
+	live         map[sharedStream]struct{} // 所有尚未关闭的流，包含已被同地址的新流顶替、不在 streams 表中的流
 }
 
 // GetResourceController 获取资源控制器
@@ -155,6 +157,16 @@ func (s *Shared) Close(err ...error) {
 		s.detachStream(key)
 		return true
 	})
+	// 被同地址的新流顶替的流不在 streams 表中，同样需要关闭，否则其处理函数永不返回，GracefulStop 将一直等待
+	s.liveLock.Lock()
+	orphans := make([]sharedStream, 0, len(s.live))
+	for stream := range s.live {
+		orphans = append(orphans, stream)
+	}
+	s.liveLock.Unlock()
+	for _, stream := range orphans {
+		s.closeStream(stream)
+	}
 	s.grpc.GracefulStop()
 	s.streams.Clear()
 
@@ -195,6 +207,12 @@ func (s *Shared) open(address PhysicalAddress) (sharedStream, error) {
 
 func (s *Shared) attachStream(address PhysicalAddress, stream sharedStream) {
 	s.streams.Store(address, stream)
+	s.liveLock.Lock()
+	if s.live == nil {
+		s.live = make(map[sharedStream]struct{})
+	}
+	s.live[stream] = struct{}{}
+	s.liveLock.Unlock()
 }
 
 func (s *Shared) detachStream(address PhysicalAddress) {
@@ -214,6 +232,9 @@ func (s *Shared) detachStreamOf(address PhysicalAddress, stream sharedStream) {
 
 // closeStream 关闭流并将其进程标记为已终止，使缓存了该进程的引用在下次使用时重新解析
 func (s *Shared) closeStream(stream sharedStream) {
+	s.liveLock.Lock()
+	delete(s.live, stream)
+	s.liveLock.Unlock()
 	if stream.IsTerminated() {
 		return
 	}
